@@ -72,12 +72,14 @@ MeasuredOK(c) ==
    /\ Cardinality({c.mp[i][2] : i \in 1..Len(c.mp)}) = Len(c.mp)
    /\ \A i \in 1..Len(c.mp) : c.mp[i][2] >= 0 /\ c.mp[i][2] < c.ncreg /\ c.mp[i][1] >= 0 /\ c.mp[i][1] < c.nq
 PrecOK(c) == \A i \in 1..Len(c.b) : \A j \in 1..Len(c.b[i].pe) : c.b[i].pe[j] <= c.b[i].tol[j]
+\* overflow guard (Cyclo.MaxAbs doubles its work per coefficient: unusable at H = 16)
+TqInBound(m) == \A i \in 1..Len(m.e) : \A j \in 1..Len(m.e[i]) : \A t \in IdxH : m.e[i][j][t] < Bound /\ m.e[i][j][t] > -Bound
 TqIsDiag(m) == \A i \in 1..Len(m.e) : \A j \in 1..Len(m.e[i]) : i # j => IsZero(m.e[i][j])
 TqVerdict(ua, ub, c) ==
    IF ~RegOK(c) THEN "qreg-size"
    ELSE IF ~MeasuredOK(c) THEN "measured-register"
    ELSE IF ~PrecOK(c) THEN "angle-precision"
-   ELSE IF ~InBound(ua) \/ ~InBound(ub) THEN "overflow"
+   ELSE IF ~TqInBound(ua) \/ ~TqInBound(ub) THEN "overflow"
    ELSE CASE c.rel = "phase" -> IF EqUpToScalar(ua, ub) THEN "ok" ELSE "not-equal-up-to-phase"
           [] c.rel = "diag"  -> IF TqIsDiag(MatMul(ub, Dagger(ua))) THEN "ok" ELSE "not-diagonal-in-eigenbasis"
 EndB == /\ side = 1 /\ pos > Len(Case.b)
